@@ -9,8 +9,13 @@ package main
 
 import (
 	"fmt"
+	"sort"
 
 	"go.pennock.tech/tabular"
+	"go.pennock.tech/tabular/csv"
+	thtml "go.pennock.tech/tabular/html"
+	"go.pennock.tech/tabular/markdown"
+	"go.pennock.tech/tabular/texttable"
 )
 
 type c13GrowRec struct {
@@ -296,5 +301,114 @@ func c13RowCallbackAppends(x *X, c *Chooser) {
 		}
 	}
 	x.State(fmt.Sprint("append", n0, ctor, owner, recOn, hdr))
+	x.Nontrivial(fmt.Sprint(c.path))
+}
+
+// family "owner-given-as-wrapper": the table owner of a registration is handed over as a renderer wrapper (possibly a
+// wrapper of a wrapper) around table B, and the call is made on B itself, on one of its wrappers, or on an unrelated
+// table A.  The callback belongs to B: it fires in B's passes on B's targets, never in A's.
+type c13WhoRec struct {
+	hits []string
+	a, b *tabular.ATable
+}
+
+func (r *c13WhoRec) UpdateProperties(po tabular.PropertyOwner) error {
+	switch v := po.(type) {
+	case *tabular.ATable:
+		switch v {
+		case r.a:
+			r.hits = append(r.hits, "table A")
+		case r.b:
+			r.hits = append(r.hits, "table B")
+		default:
+			r.hits = append(r.hits, "an unknown table")
+		}
+		v.SetProperty("seen", true)
+	case *tabular.Cell:
+		r.hits = append(r.hits, "cell "+v.String())
+	default:
+		r.hits = append(r.hits, fmt.Sprintf("%T", po))
+	}
+	return nil
+}
+
+func c13OwnerAsWrapper(x *X, c *Chooser) {
+	a, b := tabular.New(), tabular.New()
+	a.AddHeaders("ah")
+	a.AddRowItems("a1")
+	b.AddHeaders("bh")
+	b.AddRowItems("b1")
+	b.AddRowItems("b2")
+	ownerForms := []struct {
+		name string
+		mk   func() tabular.PropertyOwner
+	}{
+		{"B itself", func() tabular.PropertyOwner { return b }},
+		{"texttable.Wrap(B)", func() tabular.PropertyOwner { return texttable.Wrap(b) }},
+		{"csv.Wrap(texttable.Wrap(B))", func() tabular.PropertyOwner { return csv.Wrap(texttable.Wrap(b)) }},
+		{"markdown.Wrap(B)", func() tabular.PropertyOwner { return markdown.Wrap(b) }},
+	}
+	via := []struct {
+		name string
+		t    func() tabular.Table
+	}{
+		{"B", func() tabular.Table { return b }},
+		{"html.Wrap(B)", func() tabular.Table { return thtml.Wrap(b) }},
+		{"the unrelated table A", func() tabular.Table { return a }},
+		{"texttable.Wrap(A)", func() tabular.Table { return texttable.Wrap(a) }},
+	}
+	of := ownerForms[c.Choose(len(ownerForms))]
+	vt := via[c.Choose(len(via))]
+	when := 1 + c.Choose(3)
+	target := c.Choose(2)
+	rec := &c13WhoRec{a: a, b: b}
+	tags := []string{"owner_given_as_wrapper", "owner:" + of.name, "via:" + vt.name}
+	c.Logf("%s.RegisterPropertyCallback(%s, %s, %s)", vt.name, of.name, cbTimeNames[when], cbTargetNames[target])
+	if err := registerCB(vt.t(), of.mk(), when, target, rec); err != nil {
+		x.Fail("C13.refused", tags, "registering on the table owner given as %s through %s was refused: %v", of.name, vt.name, err)
+		return
+	}
+	x.Transition(1)
+	a.InvokeRenderCallbacks()
+	x.Clause("C13.once")
+	if len(rec.hits) != 0 {
+		x.Fail("C13.once", append(tags, "fired_on_another_table"), "the callback registered for table B fired during a pass over the unrelated table A: %v", rec.hits)
+		return
+	}
+	for pass := 1; pass <= 2; pass++ {
+		rec.hits = nil
+		b.InvokeRenderCallbacks()
+		x.Transition(1)
+		want := []string{"table B"}
+		if target == 1 {
+			want = []string{"cell bh", "cell b1", "cell b2"}
+		}
+		if when == 2 && target == 0 {
+			// table/RENDER/ITSELF is accepted but the statement names no event for it
+			if len(rec.hits) > 1 {
+				x.Fail("C13.once", tags, "pass %d over B: table/RENDER/ITSELF fired %d times: %v", pass, len(rec.hits), rec.hits)
+				return
+			}
+			continue
+		}
+		got := append([]string{}, rec.hits...)
+		sort.Strings(got)
+		w := append([]string{}, want...)
+		sort.Strings(w)
+		if fmt.Sprint(got) != fmt.Sprint(w) {
+			x.Fail("C13.once", tags, "pass %d over B: the callback fired on %v, want exactly %v", pass, rec.hits, want)
+			return
+		}
+	}
+	x.Clause("C13.live")
+	if target == 0 && when != 2 && b.GetProperty("seen") != true {
+		x.Fail("C13.live", tags, "the property the callback set on the table it was handed is not visible on B")
+		return
+	}
+	if a.GetProperty("seen") != nil {
+		x.Fail("C13.live", append(tags, "fired_on_another_table"), "the callback set its property on the unrelated table A")
+		return
+	}
+	x.State(fmt.Sprint(of.name, vt.name, when, target))
 	x.Nontrivial(fmt.Sprint(c.path))
 }
